@@ -21,49 +21,88 @@ def gen_c06_history(rnd):
                 reqs.append({"kind": "convert", "input": s, "context": rnd.choice(["Normal", "Normal", "ForeignWord", "Numeral"])})
             nconv += 1
         else:
-            reqs.append({"kind": "confirm", "session": rnd.choice([rnd.randrange(nconv)] * 6 + [None]), "cid": rnd.choice(["0", "0", "0", "1", "1", "2", "3", "50", "x", "01"])})
+            reqs.append({"kind": "confirm", "session": rnd.choice([rnd.randrange(nconv)] * 6 + [None]), "cid": rnd.choice(["0", "0", "0", "0", "1", "1", "1", "2", "3", "50", "x", "01", "+0", "+1", "00", " 0", "0 ", "1e0", "０"])})
+    if rnd.random() < 0.6:
+        # counts learned in an earlier life (context, surface, count, age in ms): stale ones must go at the next confirmation,
+        # a stale count that is itself confirmed goes from n to n+1
+        DAY = 24 * 3600 * 1000
+        first = [w for w in words if reqs and reqs[0]["input"].startswith(w["reading"])]
+        surf = [w["stem"] for w in first] * 3 + [e["stem"] for e in base["std"]]
+        fr, seen = [], set()
+        for _ in range(rnd.randint(1, 4)):
+            x = (rnd.choice(["Normal", "Normal", "Normal", "ForeignWord", "Numeral", "Proper"]), rnd.choice(surf), rnd.randint(1, 6),
+                 rnd.choice([4 * DAY, 4 * DAY, 10 * DAY, 2 * DAY, 3600 * 1000, 3 * DAY + 3600 * 1000, 3 * DAY - 3600 * 1000]))
+            if (x[0], x[1]) not in seen:
+                seen.add((x[0], x[1]))
+                fr.append(x)
+        base["init_freq"] = fr
     return base, reqs
 
 
 def fmap(dump):
-    return {(f[0]["kind"], f[1]): f[2] for f in dump["frequencies"]}
+    return {(f[0]["kind"], f[1]): (f[2], f[3]) for f in dump["frequencies"]}
+
+
+EXPIRY_MS = 3 * 24 * 60 * 60 * 1000
 
 
 def predicate(res, hr):
     for what, detail in hr.problems:
         res.violation(what, {"base": hr.base, "requests": hr.requests, "detail": detail})
     live = {}       # session number -> (context, texts)
-    prev = {}
+    prev = {(c["kind"], w): (n, t) for c, w, n, t in hr.init_freq_abs}
     nt = False
-    di = 0
+    rep = {"base": hr.base, "requests": hr.requests}
     for (ev, obs), rq, dmp in zip(hr.events, [r for r in hr.requests if r["kind"] != "malformed"], hr.dumps):
         if dmp is None:
             continue
         cur = fmap(dmp)
         if ev["t"] == "convert" and obs is not None:
-            live[obs["sid"]] = (ev["ctx"], obs["texts"])
+            live[obs["sid"]] = (ev["ctx"], obs["texts"], ev["input"])
             if cur != prev:
-                res.violation("a conversion changed the learned counts", {"base": hr.base, "requests": hr.requests})
+                res.violation("a conversion changed the learned counts", rep)
         elif ev["t"] == "confirm":
             sid, cid = ev["sid"], ev["cid"]
-            changed = {k: (prev.get(k, 0), cur.get(k, 0)) for k in set(prev) | set(cur) if prev.get(k, 0) != cur.get(k, 0)}
-            valid = sid in live and cid.isdigit() and str(int(cid)) == cid and int(cid) < len(live[sid][1])
+            changed = {k: (prev.get(k, (0, None)), cur.get(k, (0, None))) for k in set(prev) | set(cur) if prev.get(k) != cur.get(k)}
+            # the ids the server issued are "0".."n-1", nothing else
+            valid = sid in live and cid in [str(i) for i in range(len(live[sid][1]))]
             if not valid:
                 if changed:
-                    res.violation(f"a confirmation with an unknown / consumed session or an unknown candidate id changed counts: {changed}", {"base": hr.base, "requests": hr.requests})
-                if sid in live and (cid != "" ):
+                    res.violation(f"a confirmation with an unknown / consumed session or an unknown candidate id ({cid!r}) changed counts: {changed}", rep)
+                if sid in live and (cid != ""):
                     nt = True
             else:
-                ctx, texts = live[sid]
-                if len(changed) > 1:
-                    res.violation(f"one confirmation changed {len(changed)} counts: {changed}", {"base": hr.base, "requests": hr.requests})
-                for (c, w), (a, b) in changed.items():
-                    if b != a + 1:
-                        res.violation(f"the count of {w!r} went from {a} to {b} on one confirmation", {"base": hr.base, "requests": hr.requests})
+                ctx, texts, inp = live[sid]
+                bumped = [(k, a, b) for k, (a, b) in changed.items() if b[0] > 0]
+                dropped = [(k, a) for k, (a, b) in changed.items() if b[0] == 0]
+                if len(bumped) > 1:
+                    res.violation(f"one confirmation raised {len(bumped)} counts: {bumped}", rep)
+                now = None
+                for (c, w), a, b in bumped:
+                    now = b[1]
+                    if b[0] != a[0] + 1:
+                        res.violation(f"the count of {w!r} went from {a[0]} to {b[0]} on one confirmation", rep)
                     if c != ctx:
-                        res.violation(f"a confirmation in context {ctx} changed a count of context {c}", {"base": hr.base, "requests": hr.requests})
+                        res.violation(f"a confirmation in context {ctx} changed a count of context {c}", rep)
                     if w not in texts[int(cid)]:
-                        res.violation(f"the confirmed candidate {texts[int(cid)]!r} does not contain the learned word {w!r}", {"base": hr.base, "requests": hr.requests})
+                        res.violation(f"the confirmed candidate {texts[int(cid)]!r} does not contain the learned word {w!r}", rep)
+                # every other change is the drop of a count not refreshed for three days; and those are all dropped
+                if now is not None:
+                    for k, a in dropped:
+                        if not (now - a[1] > EXPIRY_MS):
+                            res.violation(f"the confirmation dropped the count of {k[1]!r}, refreshed {(now - a[1]) // 1000} s earlier (less than three days)", rep)
+                    for k, (n_, t_) in cur.items():
+                        if now - t_ > EXPIRY_MS:
+                            res.violation(f"the count of {k[1]!r}, not refreshed for {(now - t_) // 3600000} h, survives a confirmation", rep)
+                    if dropped:
+                        nt = True
+                elif dropped:
+                    res.violation(f"a confirmation that raised no count dropped {dropped}", rep)
+                else:
+                    # nothing changed: wrong when the candidate is a single independent dictionary word
+                    whole = [e for e in hr.base["std"] if e["reading"] == inp and e["stem"] == texts[int(cid)] and e["speech"] in NONCONJ]
+                    if whole:
+                        res.violation(f"confirming candidate {cid} ({texts[int(cid)]!r}) of the live session {sid} changed no count", rep)
                 if int(cid) >= 1:
                     nt = True
             live.pop(sid, None)
@@ -177,6 +216,11 @@ def run(tier, seed):
         return res.finish({"obligations": info["obligations"], "discharged": info["discharged"], "checker_cmd": "make", "trusted_base": TRUSTED_COMMON}, [])
     n = 24 if tier == "quick" else 400
     items = [gen_c06_history(rnd) for _ in range(n)]
+    # many outstanding sessions: a session issued long ago and never confirmed is still live (the store has no bound)
+    many_base = {"std": [{"reading": "き", "stem": "木", "speech": {"Noun": "Common"}}, {"reading": "き", "stem": "気", "speech": {"Noun": "Common"}}], "anc": [], "tankan": []}
+    k_out = 1100 if tier == "quick" else 5000
+    items.append((many_base, [{"kind": "convert", "input": "き", "context": "Normal"} for _ in range(k_out)]
+                  + [{"kind": "confirm", "session": 2, "cid": "1"}, {"kind": "confirm", "session": k_out - 1, "cid": "0"}, {"kind": "confirm", "session": 2, "cid": "1"}]))
     runs = run_histories(items, threads=12)
     nontrivial = sum(1 for hr in runs if predicate(res, hr))
     rr = rerank_predicate(res, tier, rnd)
